@@ -14,8 +14,9 @@ Two evaluators over the same structure:
   * concrete (Python sets) — used only to double-check replays natively.
 """
 import itertools
-import z3
-from encode import Row, AND, OR, NOT, T, tup_eq, distinct, subset, Unsupported, cmp_z3
+import smt as S
+from smt import AND, OR, NOT, EQ, CMP
+from encode import Row, tup_eq, distinct, subset, named, agg_value, Unsupported, MAX_ROWS
 
 OPS = {"=": "Eq", "!=": "Ne", "<": "Lt", "<=": "Le", ">": "Gt", ">=": "Ge"}
 
@@ -149,37 +150,29 @@ def sccs(program):
 
 
 # ---------------------------------------------------------------------------------------
-# generic rule evaluation, parameterised by a small "algebra" (symbolic or concrete)
+# symbolic rule evaluation (terms: see smt.py)
 # ---------------------------------------------------------------------------------------
-
-class SymAlg:
-    def const(self, n):
-        return z3.IntVal(n)
-
-    def bin(self, op, a, b):
-        return {"+": a + b, "-": a - b, "*": a * b}[op]
-
-    def cmp(self, op, a, b):
-        return cmp_z3(OPS[op], a, b)
-
-    def eq(self, a, b):
-        return a == b
-
 
 def eval_expr_sym(e, bind):
     if e[0] == "var":
         return bind[e[1]]
     if e[0] == "const":
-        return z3.IntVal(e[1])
+        return e[1]
     a, b = eval_expr_sym(e[2], bind), eval_expr_sym(e[3], bind)
-    return {"+": a + b, "-": a - b, "*": a * b}[e[1]]
+    return {"+": S.ADD, "-": S.SUB, "*": S.MUL}[e[1]](a, b)
 
 
 def rule_rows_sym(rule, tables):
     """All satisfying valuations of the rule body as rows: (cond, binding)."""
     pos = [l for l in rule["body"] if l[0] == "pos"]
-    lists = [tables.get(l[1], []) for l in pos]
+    lists = [named(tables.get(l[1], [])) for l in pos]
+    negs = {l[1]: named(tables.get(l[1], [])) for l in rule["body"] if l[0] == "neg"}
     out = []
+    size = 1
+    for l_ in lists:
+        size *= max(1, len(l_))
+    if size > MAX_ROWS:
+        raise Unsupported(f"table too large ({size} rows)")
     for combo in itertools.product(*lists):
         cond = []
         bind = {}
@@ -192,25 +185,24 @@ def rule_rows_sym(rule, tables):
             for t, v in zip(l[2], row.c):
                 if t[0] == "var":
                     if t[1] in bind:
-                        cond.append(bind[t[1]] == v)
+                        cond.append(EQ(bind[t[1]], v))
                     else:
                         bind[t[1]] = v
                 elif t[0] == "const":
-                    cond.append(v == z3.IntVal(t[1]))
+                    cond.append(EQ(v, t[1]))
         if not ok:
             continue
-        # let-bindings in order (they may depend on each other)
         pending = [l for l in rule["body"] if l[0] == "let"]
         progress = True
         while pending and progress:
             progress = False
             for l in list(pending):
                 try:
-                    val = eval_expr_sym(l[2], bind)
+                    val = S.name_int(eval_expr_sym(l[2], bind))
                 except KeyError:
                     continue
                 if l[1] in bind:
-                    cond.append(bind[l[1]] == val)
+                    cond.append(EQ(bind[l[1]], val))
                 else:
                     bind[l[1]] = val
                 pending.remove(l)
@@ -219,57 +211,45 @@ def rule_rows_sym(rule, tables):
             raise Unsupported("unresolvable let binding")
         for l in rule["body"]:
             if l[0] == "cmp":
-                cond.append(cmp_z3(OPS[l[2]], eval_expr_sym(l[1], bind), eval_expr_sym(l[3], bind)))
+                cond.append(CMP(OPS[l[2]], eval_expr_sym(l[1], bind), eval_expr_sym(l[3], bind)))
             elif l[0] == "neg":
-                rows = tables.get(l[1], [])
                 hits = []
-                for r in rows:
+                for r in negs[l[1]]:
                     if len(r.c) != len(l[2]):
                         continue
                     m = [r.p]
                     for t, v in zip(l[2], r.c):
                         if t[0] == "var":
-                            m.append(bind[t[1]] == v)
+                            m.append(EQ(bind[t[1]], v))
                         elif t[0] == "const":
-                            m.append(v == z3.IntVal(t[1]))
+                            m.append(EQ(v, t[1]))
                     hits.append(AND(*m))
                 cond.append(NOT(OR(*hits)))
-        out.append((AND(*cond), bind))
+        c = AND(*cond)
+        if c is not False:
+            out.append((S.name_bool(c), bind))
     return out
 
 
 def head_rows_sym(rule, tables):
     vals = rule_rows_sym(rule, tables)
     hargs = rule["head"][1]
+
+    def plain(t, bind):
+        if t[0] == "var":
+            return bind[t[1]]
+        if t[0] == "const":
+            return t[1]
+        return S.name_int(eval_expr_sym(t[1], bind))
     if not any(t[0] == "agg" for t in hargs):
-        rows = []
-        for cond, bind in vals:
-            cols = []
-            for t in hargs:
-                if t[0] == "var":
-                    cols.append(bind[t[1]])
-                elif t[0] == "const":
-                    cols.append(z3.IntVal(t[1]))
-                else:
-                    cols.append(eval_expr_sym(t[1], bind))
-            rows.append(Row(cond, cols))
-        return rows
+        return [Row(cond, [plain(t, bind) for t in hargs]) for cond, bind in vals]
     # Aggregation (C06): one row per group; valuations are distinct because every table is a
     # set and every column of every atom is bound (anonymous variables included).
-    def key(bind):
-        k = []
-        for t in hargs:
-            if t[0] == "var":
-                k.append(bind[t[1]])
-            elif t[0] == "const":
-                k.append(z3.IntVal(t[1]))
-            elif t[0] == "expr":
-                k.append(eval_expr_sym(t[1], bind))
-        return k
-    keys = [key(b) for _, b in vals]
+    keys = [[plain(t, b) for t in hargs if t[0] != "agg"] for _, b in vals]
     rows = []
+    FN = {"count": "Count", "sum": "Sum", "min": "Min", "max": "Max", "count_distinct": "CountDistinct"}
     for i, (cond, bind) in enumerate(vals):
-        same = [AND(vals[j][0], tup_eq(keys[j], keys[i])) for j in range(len(vals))]
+        same = [S.name_bool(AND(vals[j][0], tup_eq(keys[j], keys[i]))) for j in range(len(vals))]
         rep = AND(cond, NOT(OR(*[same[j] for j in range(i)])))
         cols = []
         ki = iter(keys[i])
@@ -277,27 +257,11 @@ def head_rows_sym(rule, tables):
             if t[0] != "agg":
                 cols.append(next(ki))
                 continue
-            f, x = t[1], t[2]
-            xs = [b[x] for _, b in vals]
-            if f == "count":
-                cols.append(z3.Sum([z3.If(s, 1, 0) for s in same]))
-            elif f == "sum":
-                cols.append(z3.Sum([z3.If(same[j], xs[j], 0) for j in range(len(vals))]))
-            elif f in ("min", "max"):
-                m = xs[i]
-                for j in range(len(vals)):
-                    better = xs[j] < m if f == "min" else xs[j] > m
-                    m = z3.If(AND(same[j], better), xs[j], m)
-                cols.append(m)
-            elif f == "count_distinct":
-                terms = []
-                for j in range(len(vals)):
-                    first = NOT(OR(*[AND(same[k], xs[k] == xs[j]) for k in range(j)]))
-                    terms.append(z3.If(AND(same[j], first), 1, 0))
-                cols.append(z3.Sum(terms))
-            else:
-                raise Unsupported(f"aggregate {f}")
-        rows.append(Row(rep, cols))
+            if t[1] not in FN:
+                raise Unsupported(f"aggregate {t[1]}")
+            xs = [b[t[2]] for _, b in vals]
+            cols.append(S.name_int(agg_value(FN[t[1]], same, xs, i)))
+        rows.append(Row(S.name_bool(rep), cols))
     return rows
 
 
@@ -328,7 +292,7 @@ def model_sym(program, edb, k):
                 nxt[r["head"][0]].extend(head_rows_sym(r, t2))
             cur = {h: distinct(v) for h, v in nxt.items()}
             hist.append(cur)
-        conv.append(AND(*[subset(hist[k][h], hist[k - 1][h]) for h in comp]))
+        conv.append(S.name_bool(AND(*[subset(hist[k][h], hist[k - 1][h]) for h in comp])))
         tables.update(hist[k - 1])
     return tables, conv
 
